@@ -916,6 +916,110 @@ def gen_op(rng, h: History, risky: float) -> list:
     return ["mod_field", rng.choice(["long_name", "description"]), text()]
 
 
+# ---------------------------------------------------------------------------------------------- hash seeds (set order)
+
+HASHSEED_HISTORIES = [0, 1, 5, 7, 8, 12]  # indices into DIRECTED: several definitions under one requirement type
+
+
+def child_main() -> None:
+    """Runs in a subprocess with its own PYTHONHASHSEED: export the corpus modules of one model and some directed
+    histories (uuid4 replaced by a seeded sequence so that every process builds the same module) and print, per case,
+    the bytes' digest, the identifiers, the references and the canonical tree digest."""
+    import hashlib
+    import json
+    import random
+    import uuid
+
+    rel = sys.argv[1]
+    os.environ.setdefault("XDG_CACHE_HOME", sys.argv[2])
+    if str(common.REPO) not in sys.path:
+        sys.path.insert(0, str(common.REPO))
+    import capellambse
+    from capellambse.extensions import reqif
+    from capellambse.extensions.reqif import exporter
+
+    rng = random.Random(20)
+    uuid.uuid4 = lambda: uuid.UUID(int=rng.getrandbits(128), version=4)  # chosen uuids, the same in every process
+    model = capellambse.MelodyModel(str(common.REPO / rel))
+    res = {}
+
+    def record(name, mod):
+        data, exc = export_once(mod)
+        if exc is not None:
+            res[name] = {"err": type(exc).__name__}
+            return
+        tree = canon_tree(parse_tree(data), len(exporter.STD_SPEC_OBJECT_ATTRIBUTES))
+        ids, refs = tree_scan(tree)
+        order = [[d["def"], d["kind"]] for o in set_order(mod, exporter) for d in o["defs"]]
+        canon = sort_set_ordered(tree, len(exporter.STD_SPEC_OBJECT_ATTRIBUTES))
+        res[name] = {"bytes": hashlib.sha256(data).hexdigest(), "ids": sorted(ids), "refs": sorted(refs),
+                     "canon": hashlib.sha256(json.dumps(canon, sort_keys=True).encode()).hexdigest(), "order": order}
+
+    for mod in model.search(reqif.CapellaModule):
+        record("corpus:" + mod.uuid, mod)
+    for i in HASHSEED_HISTORIES:
+        h = History(model, reqif)
+        try:
+            for op in DIRECTED[i]:
+                h.apply(op)
+            record(f"directed:{i}", h.mod)
+        finally:
+            h.discard()
+    print(json.dumps(res))
+
+
+def monitor_hash_seeds(ctx: Ctx, out: Outcome, rel: str) -> None:
+    """Same modules, different PYTHONHASHSEED: the identifiers, the references and the document up to the order of the
+    set-ordered attribute definitions must not depend on the seed (an IDENTIFIER names the same thing in every export)."""
+    import json
+    import subprocess
+
+    seeds = [0, 1, 4242] if not ctx.thorough else [0, 1, 2, 3, 4242, 99991]
+    procs = []
+    for sd in seeds:
+        env = dict(os.environ, PYTHONHASHSEED=str(sd))
+        code = "import sys; sys.path.insert(0, %r); import props.c20 as m; m.child_main()" % str(pathlib.Path(__file__).resolve().parent.parent)
+        procs.append((sd, subprocess.Popen([sys.executable, "-c", code, rel, str(ctx.scratch / "xdg")], env=env,
+                                           stdout=subprocess.PIPE, stderr=subprocess.PIPE, text=True)))
+    results = {}
+    for sd, p in procs:
+        try:
+            so, se = p.communicate(timeout=600)
+        except subprocess.TimeoutExpired:
+            p.kill()
+            raise common.InfraError("hash-seed child timed out") from None
+        if p.returncode != 0:
+            raise common.InfraError(f"hash-seed child failed: {se[-800:]}")
+        results[sd] = json.loads(so.strip().splitlines()[-1])
+    base = results[seeds[0]]
+    orders, byte_diff = set(), 0
+    for name, ref in base.items():
+        out.case(("hash-seeds", rel, name), nontrivial="order" in ref and len(ref["order"]) > 1)
+        out.traces_validated += len(seeds)
+        for sd in seeds[1:]:
+            other = results[sd].get(name)
+            case = {"kind": "hash-seeds", "model": rel, "name": name, "seeds": [seeds[0], sd]}
+            if other is None or ("err" in ref) != ("err" in other):
+                out.find("to_reqif|nondeterministic|outcome", f"{name}: {ref.get('err', 'document')} under seed {seeds[0]}, {(other or {}).get('err', 'document')} under seed {sd}", case)
+                continue
+            if "err" in ref:
+                if ref["err"] != other["err"]:
+                    out.hit("hash-seeds:exception-class-differs")
+                continue
+            if ref["ids"] != other["ids"] or ref["refs"] != other["refs"]:
+                out.find("to_reqif|nondeterministic|identifiers", f"{name}: the identifiers / references of the export depend on PYTHONHASHSEED ({seeds[0]} vs {sd})", case)
+            elif ref["canon"] != other["canon"]:
+                out.find("to_reqif|nondeterministic|content", f"{name}: the document differs beyond the order of attribute definitions under PYTHONHASHSEED {seeds[0]} vs {sd}", case)
+            if ref["bytes"] != other["bytes"]:
+                byte_diff += 1
+            orders.add((name, tuple(map(tuple, other["order"]))))
+        orders.add((name, tuple(map(tuple, ref.get("order", [])))))
+    out.hit("hash-seeds:cases", len(base))
+    out.hit("hash-seeds:bytes-differ", byte_diff)
+    out.extra["hash_seeds"] = {"seeds": seeds, "cases": len(base), "pairs_with_different_bytes": byte_diff,
+                               "distinct_set_orders_seen": len(orders)}
+
+
 # ---------------------------------------------------------------------------------------------- the run
 
 
@@ -1317,6 +1421,9 @@ def run(ctx: Ctx) -> Outcome:
     out.extra["histories"] = n_hist
     out.extra["ops_per_history"] = n_ops
 
+    # (c) the same modules under different string-hash seeds (separate processes)
+    monitor_hash_seeds(ctx, out, hist_models[0])
+
     # shrink history replays (first of each signature)
     for f in out.findings:
         if f.replay.get("kind") == "history":
@@ -1421,6 +1528,10 @@ def replay(ctx: Ctx, case: dict):
     elif case["kind"] == "compress":
         mod = env.model(case["model"]).by_uuid(case["module"])
         found, _ = monitor_compress(mod, ctx.scratch)
+    elif case["kind"] == "hash-seeds":
+        o = Outcome()
+        monitor_hash_seeds(ctx, o, case["model"])
+        found = [(f.signature, f.what) for f in o.findings]
     elif case["kind"] == "compress-history":
         h = History(env.model(case["model"]), env.reqif)
         for op in case["ops"]:
